@@ -13,6 +13,9 @@
 //	conc <g> <p>                                   g goroutines call Next() p times each, concurrently
 //	race3 <trials>                                 three goroutines, one Next() each on a fresh strategy of the same
 //	                                               configuration, repeated; stops at the first out-of-bounds interval
+//	burst <rounds> <g> <k>                         rounds x (fresh strategy of the same configuration, g goroutines released
+//	                                               together by a spin barrier, k Next() calls each): the smallest and largest
+//	                                               number of grants seen in a round, their histogram, min/max granted interval
 //	retry <fails> <durs> <ctxkind> <ctxarg>        retry.Retry with a scripted bizFunc:
 //	      fails: invocation k fails iff k < fails (fails = -1: always); durs: comma list (ns, cycled) of
 //	      how long each invocation sleeps; ctx: none 0 | timeout T | cancel T | pre 0
@@ -30,6 +33,7 @@ import (
 	"math"
 	"os"
 	"regexp"
+	"runtime"
 	"sort"
 	"strconv"
 	"strings"
@@ -107,13 +111,24 @@ func genNext(tier string, out *vlib.Out) {
 		"new exp 1000 64000 700\nconc 8 250\nnext",
 		"new exp 1000 64000 6000\nconc 8 1500\nnext",
 		"new fixed 7 300\nconc 4 200\nconc 4 200",
+		// many short rounds of simultaneous callers right at the budget boundary (grants must be exactly min(N, maxRetries))
+		"new fixed 7 3\nburst 3000 8 4",
+		"new fixed 1000000 1\nburst 3000 2 1\nburst 2000 4 2",
+		"new fixed 5 2\nburst 3000 4 1\nburst 2000 3 3",
+		"new fixed 9 4\nburst 3000 8 1",
+		"new fixed 9 0\nburst 500 4 3",
+		"new exp 1000 64000 3\nburst 3000 8 4",
+		"new exp 1000000 50000000 1\nburst 3000 2 1\nburst 2000 4 2",
+		"new exp 2 9223372036854775807 2\nburst 3000 4 1",
+		"new exp 7 7 4\nburst 3000 8 1\nburst 1000 3 70",
+		"new exp 1 9223372036854775807 0\nburst 300 4 20",
 	}
 	for _, c := range corpus {
 		emit(out, c)
 	}
 	initials := []int64{1, 2, 3, 7, 1000, 1000000, 100000000, 1 << 31, 3037000499, 3037000500, (1 << 40) + 1, 1 << 61,
 		(1 << 62) - 1, 1 << 62, (1 << 62) + 1, (1 << 62) + 2, maxI64 - 1, maxI64}
-	budgets := []int{-1, 0, 1, 2, 5, 5, 70, 200, 400}
+	budgets := []int{-1, 0, 1, 2, 3, 4, 5, 5, 70, 200, 400}
 	for c := 0; c < cases; c++ {
 		var initial int64
 		if r.Chance(70) {
@@ -167,7 +182,9 @@ func genNext(tier string, out *vlib.Out) {
 			case p < 90:
 				out.Line("burn %d", vlib.Pick(r, []int{1, 2, 5, 63, 64, 100, 3000}))
 			default:
-				if fixed || safeConc(initial) {
+				if (fixed || safeConc(initial)) && r.Chance(15) {
+					out.Line("burst %d %d %d", vlib.Pick(r, []int{50, 200, 600}), r.Range(2, 8), vlib.Pick(r, []int{1, 1, 2, 4}))
+				} else if fixed || safeConc(initial) {
 					out.Line("conc %d %d", r.Range(2, 8), vlib.Pick(r, []int{1, 1, 2, 5, 20, 60, 150}))
 				} else {
 					out.Line("next")
@@ -257,20 +274,21 @@ func genLoop(tier string, out *vlib.Out) {
 // execution
 
 type stats struct {
-	Ops       map[string]int `json:"ops"`
-	Results   map[string]int `json:"results"`
-	Kinds     map[string]int `json:"kinds"`
-	MaxCalls  int            `json:"max_calls_on_one_strategy"`
-	CapHits   int            `json:"next_calls_returning_max_interval"`
-	Denied    int            `json:"next_calls_denied"`
-	ConcCalls int            `json:"concurrent_next_calls"`
-	SlowOps   int            `json:"retry_invocations_slower_than_interval"`
-	Waits     int            `json:"retry_waits_measured"`
-	MinSlack  int64          `json:"min_gap_minus_interval_ns"`
-	Cases     int            `json:"cases"`
-	Lines     int            `json:"lines"`
-	Distinct  int            `json:"distinct_state_op_pairs"`
-	TimerChan string         `json:"godebug"`
+	Ops         map[string]int `json:"ops"`
+	Results     map[string]int `json:"results"`
+	Kinds       map[string]int `json:"kinds"`
+	MaxCalls    int            `json:"max_calls_on_one_strategy"`
+	CapHits     int            `json:"next_calls_returning_max_interval"`
+	Denied      int            `json:"next_calls_denied"`
+	ConcCalls   int            `json:"concurrent_next_calls"`
+	BurstRounds int            `json:"burst_rounds"`
+	SlowOps     int            `json:"retry_invocations_slower_than_interval"`
+	Waits       int            `json:"retry_waits_measured"`
+	MinSlack    int64          `json:"min_gap_minus_interval_ns"`
+	Cases       int            `json:"cases"`
+	Lines       int            `json:"lines"`
+	Distinct    int            `json:"distinct_state_op_pairs"`
+	TimerChan   string         `json:"godebug"`
 }
 
 type strat struct {
@@ -308,9 +326,14 @@ func race3(s *strat, trials int) (int, int64) {
 			defer wg.Done()
 			seen := int32(0)
 			for {
+				spins := 0
 				for atomic.LoadInt32(&gen) == seen {
 					if atomic.LoadInt32(&stop) == 1 {
 						return
+					}
+					if spins++; spins > 20000 {
+						runtime.Gosched()
+						spins = 0
 					}
 				}
 				seen++
@@ -321,12 +344,21 @@ func race3(s *strat, trials int) (int, int64) {
 		}(g)
 	}
 	n, bad := 0, int64(0)
+	t0 := time.Now()
 	for n < trials && bad == 0 {
+		if n&63 == 63 && time.Since(t0) > 3*time.Second {
+			break
+		}
 		n++
 		cur.Store(s.fresh())
 		atomic.StoreInt32(&done, 0)
 		atomic.AddInt32(&gen, 1)
+		spins := 0
 		for atomic.LoadInt32(&done) < 3 {
+			if spins++; spins > 20000 {
+				runtime.Gosched()
+				spins = 0
+			}
 		}
 		for g := 0; g < 3; g++ {
 			if oks[g] && (res[g] < s.initial || res[g] > s.max) {
@@ -337,6 +369,98 @@ func race3(s *strat, trials int) (int, int64) {
 	atomic.StoreInt32(&stop, 1)
 	wg.Wait()
 	return n, bad
+}
+
+// wall-clock budget (ns) shared by all burst ops of one run
+var burstBudget = int64(5 * time.Second)
+
+// burst: `rounds` times, g goroutines call Next k times each on a fresh strategy, all released at the same
+// instant by a spin barrier (persistent workers, so a round costs microseconds).  Returns the per-round grant
+// counts as a histogram and the extreme granted intervals.
+func burst(s *strat, rounds, g, k int) (hist map[int]int, ivmin, ivmax int64, done_ int) {
+	var gen, done, stop int32
+	var cur atomic.Value
+	grants := make([]int32, g*16) // one padded slot per worker
+	mins := make([]int64, g*16)
+	maxs := make([]int64, g*16)
+	var wg sync.WaitGroup
+	for w := 0; w < g; w++ {
+		wg.Add(1)
+		go func(w int) {
+			defer wg.Done()
+			seen := int32(0)
+			for {
+				spins := 0
+				for atomic.LoadInt32(&gen) == seen {
+					if atomic.LoadInt32(&stop) == 1 {
+						return
+					}
+					if spins++; spins > 20000 {
+						runtime.Gosched()
+						spins = 0
+					}
+				}
+				seen++
+				st := cur.Load().(retry.Strategy)
+				n, lo, hi := int32(0), int64(math.MaxInt64), int64(math.MinInt64)
+				for j := 0; j < k; j++ {
+					if d, ok := st.Next(); ok {
+						n++
+						if int64(d) < lo {
+							lo = int64(d)
+						}
+						if int64(d) > hi {
+							hi = int64(d)
+						}
+					}
+				}
+				grants[w*16], mins[w*16], maxs[w*16] = n, lo, hi
+				atomic.AddInt32(&done, 1)
+			}
+		}(w)
+	}
+	hist = map[int]int{}
+	ivmin, ivmax = math.MaxInt64, math.MinInt64
+	// on an oversubscribed machine the barrier gets slow: every op is bounded by wall-clock time and all
+	// burst ops of a run together by burstBudget (later ops then do only a few rounds)
+	t0 := time.Now()
+	limit := 40*time.Millisecond + time.Duration(rounds)*20*time.Microsecond
+	if left := time.Duration(atomic.LoadInt64(&burstBudget)); left < limit {
+		limit = left
+	}
+	defer func() { atomic.AddInt64(&burstBudget, -int64(time.Since(t0))) }()
+	for r := 0; r < rounds; r++ {
+		if r&7 == 7 && time.Since(t0) > limit {
+			break
+		}
+		cur.Store(s.fresh())
+		atomic.StoreInt32(&done, 0)
+		atomic.AddInt32(&gen, 1)
+		spins := 0
+		for atomic.LoadInt32(&done) < int32(g) {
+			if spins++; spins > 20000 {
+				runtime.Gosched()
+				spins = 0
+			}
+		}
+		total := 0
+		for w := 0; w < g; w++ {
+			total += int(grants[w*16])
+			if grants[w*16] > 0 {
+				if mins[w*16] < ivmin {
+					ivmin = mins[w*16]
+				}
+				if maxs[w*16] > ivmax {
+					ivmax = maxs[w*16]
+				}
+			}
+		}
+		hist[total]++
+		done_++
+	}
+	atomic.StoreInt32(&stop, 1)
+	wg.Wait()
+	return
 }
 
 func (s *strat) Next() (time.Duration, bool) {
@@ -653,6 +777,29 @@ func runCase(ops []string, st *stats, stMu *sync.Mutex, seen map[string]struct{}
 			st.ConcCalls += g * per
 			stMu.Unlock()
 			obs = fmt.Sprintf("n=%d grants=%d ivs=%s", g*per, len(all), i64s(all))
+		case "burst":
+			rounds, _ := strconv.Atoi(w[1])
+			g, _ := strconv.Atoi(w[2])
+			k, _ := strconv.Atoi(w[3])
+			hist, lo, hi, rounds := burst(s, rounds, g, k)
+			var keys []int
+			for c := range hist {
+				keys = append(keys, c)
+			}
+			sort.Ints(keys)
+			var hs []string
+			for _, c := range keys {
+				hs = append(hs, fmt.Sprintf("%d:%d", c, hist[c]))
+			}
+			ivs := "ivmin=- ivmax=-"
+			if lo <= hi {
+				ivs = fmt.Sprintf("ivmin=%d ivmax=%d", lo, hi)
+			}
+			stMu.Lock()
+			st.BurstRounds += rounds
+			st.ConcCalls += rounds * g * k
+			stMu.Unlock()
+			obs = fmt.Sprintf("rounds=%d n=%d gmin=%d gmax=%d hist=%s %s", rounds, g*k, keys[0], keys[len(keys)-1], strings.Join(hs, ","), ivs)
 		case "race3":
 			trials, _ := strconv.Atoi(w[1])
 			n, bad := race3(s, trials)
@@ -694,6 +841,13 @@ func run(ops []string, out *vlib.Out, st *stats) {
 		}
 		cases[len(cases)-1] = append(cases[len(cases)-1], l)
 	}
+	nburst := 0
+	for _, l := range ops {
+		if strings.HasPrefix(l, "burst ") {
+			nburst++
+		}
+	}
+	atomic.StoreInt64(&burstBudget, int64(5*time.Second+time.Duration(nburst)*3*time.Millisecond))
 	results := make([][]string, len(cases))
 	seen := map[string]struct{}{}
 	var stMu sync.Mutex
